@@ -61,6 +61,7 @@ def run(chk, which="C12"):
         jobs.append((exes["L_trap"], ["mod", cnt, seed + 100 + i], 900, f"mod{i}@L_trap"))
         jobs.append((exes["G_trap"], ["mod", cnt, seed + 200 + i], 900, f"mod{i}@G_trap"))
     results = core.pmap(run_job, jobs)
+    core.reach(chk, SRC, [["sieve", 0, 300000, 150000], ["adv", 0, 64, 0, seed], ["falsesq", 0, 64, 10], ["mod", 30000, seed]], is_file=True)
     tot = {"sieve": 0, "adv": 0, "falsesq": 0, "mod": 0}
     primes = composites = 0
     info = {"base2_strong_pseudoprimes_checked": 0, "adversarial_set_size": 0, "mul_mod_fast_path": 0, "mul_mod_recursive_path": 0,
